@@ -364,6 +364,13 @@ def precision(ctx, R):
             text = _flatten_template(fm)
             okf = text == "{:.<%s>f}" % dec.key()
             detail = "format template %s" % text
+            if okf:
+                # the label is exactly that format applied to the tick: nothing is stripped or appended afterwards
+                applied = ev.call(r, [Opaque("X")], {}, st)
+                ka = key(applied)
+                okf = ka == "%s.format(X)" % key(fm) or (isinstance(applied, Template) and _flatten_template(applied) == text.replace("{", "").replace("}", ""))
+                if not okf:
+                    detail = "label(x) is %s, not the plain fixed-point format of x" % show(applied, 160)
     R.check(okf, "C13.PRECISION", g.qual + " format", where(g), "labels are '{:.<max(0,precision)>f}'", "tick labels are not fixed-point with max(0, precision) decimals: %s" % detail)
     h = P.func("scale.LinearScale.tickFormat")
     ev = new_eval(P, inline_filter=lambda fn: fn.qual != g.qual)
